@@ -182,14 +182,15 @@ ActionId class_action(CoreTrackView const& track, int c)
 std::map<std::string, std::unique_ptr<Fixture<verif::P2>>> p2_cache;
 std::map<std::string, std::unique_ptr<Fixture<verif::P1>>> p1_cache;
 
-Fixture<verif::P2>& get_p2(real_type lowest)
+Fixture<verif::P2>& get_p2(real_type lowest, real_type fixed_limit = 0)
 {
-    std::string key = hex(lowest);
+    std::string key = hex(lowest) + hex(fixed_limit);
     auto& f = p2_cache[key];
     if (!f)
     {
         verif::ProblemConfig c;
         c.lowest = lowest;
+        c.fixed_limit = fixed_limit;
         f.reset(new Fixture<verif::P2>(c));
     }
     return *f;
@@ -448,6 +449,53 @@ int main()
                     os << ' ' << lim << ' ' << hex(sim.step_length()) << ' '
                        << paction_class(track, sim.post_step_action());
                 }
+            }
+            else if (kind == "physlimit")
+            {
+                // physlimit <fixed_limit> <pid> <E> <Eset> <vol> <mfpmode> <mfpval>
+                real_type fixed_limit = rd(is);
+                unsigned pid;
+                is >> pid;
+                real_type E = rd(is);
+                real_type Eset = rd(is);
+                int vol, mfpmode;
+                is >> vol >> mfpmode;
+                real_type mfpval = rd(is);
+                auto& fx = get_p2(0.001, fixed_limit);
+                auto state = fx.make_state(
+                    ParticleId{pid}, E, p2_pos(vol), {0, 0, 1});
+                CoreTrackView track(
+                    fx.core->host_ref(), state->ref(), ThreadId{0});
+                auto particle = track.make_particle_view();
+                auto phys = track.make_physics_view();
+                auto pstep = track.make_physics_step_view();
+                auto mat = track.make_material_view();
+                particle.energy(units::MevEnergy{Eset});
+                phys.interaction_mfp(mfpval);
+                StepLimit lim = calc_physics_step_limit(mat, particle, phys, pstep);
+                bool has_eloss = static_cast<bool>(phys.eloss_ppid());
+                real_type eloss_step
+                    = has_eloss ? phys.range_to_step(phys.dedx_range()) : 0;
+                real_type xs = pstep.macro_xs();
+                real_type mfp = mfpval;
+                if (mfpmode > 0 && has_eloss && xs > 0 && Eset > 0)
+                {
+                    // aim at the tie eloss_step == mfp / xs
+                    mfp = eloss_step * xs;
+                    if (mfpmode == 2)
+                        mfp = std::nextafter(mfp, 1e300);
+                    if (mfpmode == 3)
+                        mfp = std::nextafter(mfp, 0.0);
+                    phys.interaction_mfp(mfp);
+                    lim = calc_physics_step_limit(mat, particle, phys, pstep);
+                    eloss_step = phys.range_to_step(phys.dedx_range());
+                    xs = pstep.macro_xs();
+                }
+                os << "ok " << hex(lim.step) << ' '
+                   << paction_class(track, lim.action) << ' ' << hex(mfp) << ' '
+                   << hex(xs) << ' ' << has_eloss << ' ' << hex(eloss_step)
+                   << ' ' << (phys.num_particle_processes() == 0) << ' '
+                   << phys.has_at_rest();
             }
             else if (kind == "propagate")
             {
